@@ -1,4 +1,5 @@
 import CJ.Model.WrapReg
+import CJ.Model.WrapStream
 import CJ.Gen.PrefixTable
 import CJ.Drv.Registry
 import CJ.Drv.RegistryX
@@ -30,6 +31,16 @@ def parseReveal (s : String) : Option (List (Nat × List String)) :=
     | [o, h] => do some ((← o.toNat?), fields h "+")
     | _ => none
 
+/-- `m:<rid>=<mark hex>,…` — the obfs4 mark of each registration over the representative of this buffer
+(`-`: the registration has no usable keys); the search for it is the model's (`wrapObfs4M`) -/
+def parseMarkOf (s : String) : Option (List (Nat × Option Bytes)) :=
+  (fields s ",").mapM fun x =>
+    match x.splitOn "=" with
+    | [r, h] => do
+      let rid ← r.toNat?
+      if h == "-" then some (rid, none) else some (rid, some (← parseHex h))
+    | _ => none
+
 def showVerdict : Verdict → String
   | .tryAgain => "tryagain" | .notTransport => "nottransport"
   | .errIncorrectTransport => "err-transport" | .errIncorrectPrefix => "err-prefix"
@@ -43,7 +54,13 @@ def handle (args : List String) : Option String :=
     let info ← parseInfo info
     let d ← parseHex data
     let rev ← parseReveal reveal
-    let marks ← parseNatList marks
+    let markTab ← if marks.startsWith "m:" then parseMarkOf (marks.drop 2).toString else some []
+    let marks ← if marks.startsWith "m:" then some [] else parseNatList marks
+    let viaSearch := !markTab.isEmpty
+    let markOf : Nat → Bytes → Option Bytes := fun rid _ =>
+      match markTab.find? (fun e => e.1 == rid) with
+      | some e => e.2
+      | none => none
     let s := (xrun c ops).b.st
     let infoF : Key → (Option (Option Int)) × Nat := fun k =>
       match info.find? (fun e => e.1 == k) with
@@ -57,7 +74,7 @@ def handle (args : List String) : Option String :=
     let v ← match tr with
       | "min" => some (wrapMin regs d)
       | "prefix" => some (wrapPrefixK CJ.Gen.prefixTable revF regs d)
-      | "obfs4" => some (wrapObfs4 marks regs d)
+      | "obfs4" => some (if viaSearch then CJ.WrapStream.wrapObfs4M markOf regs d else wrapObfs4 marks regs d)
       | _ => none
     some (showVerdict v)
   | _ => none
